@@ -435,6 +435,9 @@ func build(cfg storeCfg, rng *rand.Rand) (*image, error) {
 			if t == 1 && e == 0 {
 				vl = 1 << uint(rng.Intn(4)) // a power of two: one flipped bit makes vLen 0
 			}
+			if t <= 1 && vl == 0 {
+				vl = 3 // the first two transactions carry only non-empty values (directed jobs rely on it)
+			}
 			key := append([]byte(fmt.Sprintf("k%d%c", t, 'a'+e)), randBytes(rng, rng.Intn(3))...)
 			if err := tx.Set(key, md, randBytes(rng, vl)); err != nil {
 				return nil, err
